@@ -542,13 +542,18 @@ func (nfs *Nfs) doRemove(dfh nfstypes.Nfs_fh3, name nfstypes.Filename3, isdir bo
 		util.DPrintf(0, "Remove not a directory %v\n", inodes[0].Kind)
 		return op, nfstypes.NFS3ERR_INVAL
 	}
-	if isdir && !dir.IsDirEmpty(inodes[0], op) {
+	if inodes[0].Kind == nfstypes.NF3DIR && !dir.IsDirEmpty(inodes[0], op) {
 		return op, nfstypes.NFS3ERR_INVAL
 	}
 	ok := dir.RemName(inodes[1], op, name)
 	if !ok {
 		util.DPrintf(0, "Remove failed\n")
 		return op, nfstypes.NFS3ERR_IO
+	}
+	if inodes[0].Kind == nfstypes.NF3DIR && inodes[1].Nlink > 1 {
+		// the removed directory's ".." no longer refers to the parent
+		inodes[1].Nlink = inodes[1].Nlink - 1
+		inodes[1].WriteInode(op.Atxn)
 	}
 	nfs.doDecLink(op, inodes[0])
 	return op, nfstypes.NFS3_OK
@@ -727,6 +732,11 @@ func (nfs *Nfs) NFSPROC3_RENAME(args nfstypes.RENAME3args) nfstypes.RENAME3res {
 					errRet(op, &reply.Status, nfstypes.NFS3ERR_IO)
 					done = true
 					break
+				}
+				if to.Kind == nfstypes.NF3DIR && dipto.Nlink > 1 {
+					// the replaced directory's ".." no longer refers to dipto
+					dipto.Nlink = dipto.Nlink - 1
+					dipto.WriteInode(op.Atxn)
 				}
 				nfs.doDecLink(op, to)
 				success = true
